@@ -46,7 +46,9 @@ def patched_sqlite(ctl):
     m.connect = lambda *a, **kw: CountingConn(real_sqlite3.connect(*a, **kw), ctl)
     return m
 
-HOSTS = ["example.com", "Example.COM", "2001:DB8::1", "2001:db8::1", "a.b", "[::1]", "::1", "host:with:colons", 'q"uote', "üñí.example", "dotted.name.example.org", "key = 'x'", "tab\tname", "a#b", "x]y[z", "multi\nline"]
+HOSTS = ["example.com", "Example.COM", "2001:DB8::1", "2001:db8::1", "a.b", "[::1]", "::1", "host:with:colons", 'q"uote', "üñí.example", "dotted.name.example.org", "key = 'x'", "tab\tname", "a#b", "x]y[z", "multi\nline",
+         # names that are SQL LIKE / GLOB patterns of one another (a zone identifier, an underscore, a star) and case variants
+         "fe80::1%eth0", "fe80::1a%eth0", "fe80::1:2%eth0", "my_host.example", "my-host.example", "myxhost.example", "%", "_", "a*b", "a.b*", "A.B"]
 
 def read_rows(path, known_first):
     con = real_sqlite3.connect(str(path))
@@ -106,7 +108,13 @@ def enc_op(op, cs):
                e["fp"], e["first"], e["complete"]] for e in op[2]]
         return ["import", op[1], es, op[3]]
 
+FAMILIES = [["fe80::1%eth0", "fe80::1a%eth0", "fe80::1:2%eth0"], ["my_host.example", "my-host.example", "myxhost.example"],
+            ["%", "_", "a.b", "A.B"], ["a*b", "a.b*", "a.b", "axb"], ["example.com", "Example.COM", "EXAMPLE.com"]]
 def gen_store(rng, cs):
+    if rng.random() < 0.25:
+        # a family of names that are patterns / case variants of one another, all on one port
+        fam = rng.choice(FAMILIES); port = rng.choice([1965, 1966])
+        return [[h, port, rng.choice(cs)["fp"], "F%d" % i] for i, h in enumerate(fam)]
     n = rng.randint(0, 4)
     keys = set(); rows = []
     for _ in range(n):
